@@ -129,7 +129,7 @@ func (r *checkRun) writeEvidence(results []hresT, validated, sampled int, inconc
 		"wall_s":      round2(time.Since(r.t0).Seconds()),
 		"violations":  nviol,
 	}
-	writeJSON(filepath.Join(verifDir, "evidence", r.prop+".json"), ev)
+	writeJSON(filepath.Join(outDir, "evidence", r.prop+".json"), ev)
 }
 
 func round2(f float64) float64 { return float64(int(f*100+0.5)) / 100 }
